@@ -43,15 +43,22 @@ def cfgSplit (s : String) : String × List (Bool × String) :=
   | (_, p) :: more =>
     if cfgWord p && more.all (fun x => cfgWord x.2) then (String.ofList p, more.map fun x => (x.1 == '.', String.ofList x.2)) else (s, [])
   | [] => (s, [])
+/-- `digits.digits` -/
+def isDecimal (s : String) : Bool :=
+  match s.toList.span Char.isDigit with
+  | (a, '.' :: b) => !a.isEmpty && !b.isEmpty && b.all Char.isDigit
+  | _ => false
+/-- one piece as a leaf, with the marks the lexer gives it (a decimal number: LITERAL | LITERAL_FLOAT; otherwise as `TD.srcTok`) -/
+def cfgTok (s : String) : Tok := .single s.toList (if isDecimal s then LITERAL ||| Gen.mark_LITERAL_FLOAT else TD.srcMark s)
 /-- what `configStringLoop` rebuilds from the pieces -/
 def cfgJoin (w : String) : List (Bool × String) → String
   | [] => w
   | (dot, p) :: r => cfgJoin (w ++ (if dot then "." else "-") ++ p) r
 def cfgTail : List (Bool × String) → List Tok
   | [] => []
-  | (dot, p) :: r => opTok (if dot then "." else "-") :: TD.srcTok p :: cfgTail r
+  | (dot, p) :: r => opTok (if dot then "." else "-") :: cfgTok p :: cfgTail r
 /-- the tokens of a configuration string -/
-def toksCfg (s : String) : List Tok := TD.srcTok (cfgSplit s).1 :: cfgTail (cfgSplit s).2
+def toksCfg (s : String) : List Tok := cfgTok (cfgSplit s).1 :: cfgTail (cfgSplit s).2
 /-- the string is what the parser rebuilds from its pieces -/
 def cfgOK (s : String) : Bool := cfgJoin (cfgSplit s).1 (cfgSplit s).2 == s
 
